@@ -33,3 +33,9 @@ package types
 // recovery it is applied to this chain's own id only (GetSelfHeight), which is fixed at genesis (assumed well-formed).
 // verif:func ParseChainID
 //@ pure
+
+// ---- genesis validation covers the relayer registry (C15: a validated genesis initialises without panic) ----
+// verif:import sdk github.com/cosmos/cosmos-sdk/types
+// verif:func (GenesisState).Validate
+//@ loop 6 invariant [relayers-so-far] forall j int :: 0 <= j && j < idx6 ==> errof(sdk.AccAddressFromBech32(gs.Relayers[j].Address)) == nil && len(gs.Relayers[j].Addresses) != 0 && len(gs.Relayers[j].Addresses) == len(gs.Relayers[j].Chains)
+//@ ensures [relayers-valid] result == nil ==> forall j int :: 0 <= j && j < len(gs.Relayers) ==> errof(sdk.AccAddressFromBech32(gs.Relayers[j].Address)) == nil && len(gs.Relayers[j].Addresses) != 0 && len(gs.Relayers[j].Addresses) == len(gs.Relayers[j].Chains)
